@@ -27,8 +27,10 @@ log = logging.getLogger(__name__)
 
 # Most interpreter functions (including lambdas) need to be analyzed as
 # stand-alone functions. The exceptions are comprehensions and generators, which
-# have names like "<listcomp>" and "<genexpr>".
-_SKIP_FUNCTION_RE = re.compile(r"<(?!lambda)\w+>$")
+# have names like "<listcomp>" and "<genexpr>", and the helper functions that
+# Python 3.12+ generates for PEP 695 type parameter scopes, which have names
+# like "<generic parameters of f>".
+_SKIP_FUNCTION_RE = re.compile(r"<(?!lambda)[\w ]+>$")
 
 _InstanceCacheType = dict[
     abstract.InterpreterClass, dict[Any, Union["_InitClassState", cfg.Variable]]
